@@ -23,6 +23,9 @@ pub enum Env {
     /// A peer thread with its own keys has compiled another program and stays alive
     /// (parked) while this thread compiles.
     PeerAlive { hash_seed: u64, peer_seed: u64, warm_seed: u64 },
+    /// Fresh thread that first compiles the previous revision of the *same* files at the
+    /// same locations (annotation texts differ, byte offsets do not), then the files.
+    Revision { hash_seed: u64 },
     /// The real oal-cli in a fresh process; `None` = not pinned (real entropy / clock / ASLR).
     Process { hash_seed: Option<u64>, fake_time: Option<i64>, aslr_off: bool },
 }
@@ -117,6 +120,15 @@ pub fn execute(files: &BTreeMap<String, String>, env: &Env, pc: Option<&ProcCfg>
                 for k in 0..warmups {
                     let _ = compile_in(&warm_program(warm_seed, k as u64));
                 }
+                compile_in(&f)
+            })
+            .unwrap_or_else(|p| Err(format!("panic: {p}")))
+        }
+        Env::Revision { hash_seed } => {
+            let f = files.clone();
+            let prev: BTreeMap<String, String> = files.iter().map(|(p, t)| (p.clone(), gen::annotation_twist(t))).collect();
+            on_fresh_thread(hash_seed, 64, move || {
+                let _ = compile_in(&prev);
                 compile_in(&f)
             })
             .unwrap_or_else(|p| Err(format!("panic: {p}")))
@@ -238,7 +250,8 @@ fn gen_envs(rng: &mut Rng, n: usize) -> Vec<Env> {
     let mut v = Vec::new();
     for i in 0..n {
         let hash_seed = rng.next_u64();
-        v.push(match if i == 0 { 0 } else { rng.below(6) } {
+        v.push(match if i == 0 { 0 } else { rng.below(8) } {
+            6..=7 => Env::Revision { hash_seed },
             0..=2 => Env::Fresh { hash_seed },
             3..=4 => Env::Reused {
                 hash_seed,
@@ -256,6 +269,19 @@ fn gen_envs(rng: &mut Rng, n: usize) -> Vec<Env> {
 }
 
 pub fn c06_cfg(rng: &mut Rng) -> GenCfg {
+    if rng.chance(1, 8) {
+        // a large main module: the parser's memo table and the arenas grow well past
+        // the sizes any small program reaches
+        return GenCfg {
+            max_modules: rng.range(1, 2),
+            min_decls: 8,
+            max_decls: 16,
+            max_depth: 3,
+            examples_bias: 5,
+            shadow_bias: 3,
+            res_range: (60, 110),
+        };
+    }
     GenCfg {
         max_modules: rng.range(1, 4),
         min_decls: 3,
@@ -263,6 +289,7 @@ pub fn c06_cfg(rng: &mut Rng) -> GenCfg {
         max_depth: 3,
         examples_bias: 8,
         shadow_bias: 3,
+        res_range: (1, 3),
     }
 }
 
@@ -302,7 +329,10 @@ pub fn run(seed: u64, run: u64) -> Report {
     let (v, outs) = compare(&scn, pc.as_ref());
 
     let mut probes: Vec<String> = Vec::new();
-    for f in ["examples_multi", "multi_module", "reference", "ranges_multi", "scope_multi_param"] {
+    if cfg.res_range.0 >= 60 {
+        probes.push("large_module".into());
+    }
+    for f in ["examples_multi", "multi_module", "reference", "ranges_multi", "scope_multi_param", "rec", "recursive_declaration", "tags_annotation"] {
         if ast.features.contains(f) {
             probes.push(match f {
                 "reference" => "refs_present".to_string(),
@@ -317,6 +347,7 @@ pub fn run(seed: u64, run: u64) -> Report {
                 Env::Fresh { .. } => "hash_seed_fresh_thread",
                 Env::Reused { .. } => "reused_thread_after_warmups",
                 Env::PeerAlive { .. } => "second_compiler_thread_alive",
+                Env::Revision { .. } => "previous_revision_compiled_on_same_thread",
                 Env::Process { hash_seed: Some(_), .. } => "process_pinned_seed_and_clock",
                 Env::Process { .. } => "process_unpinned",
             }
@@ -403,7 +434,7 @@ fn minimise(ast: &gen::ProgramAst, layout: &Layout, scn: &Scenario, pc: Option<&
     // simplify environments to Fresh where that keeps failing
     for k in 0..cur.envs.len() {
         let hs = match &cur.envs[k] {
-            Env::Reused { hash_seed, .. } | Env::PeerAlive { hash_seed, .. } => Some(*hash_seed),
+            Env::Reused { hash_seed, .. } | Env::PeerAlive { hash_seed, .. } | Env::Revision { hash_seed } => Some(*hash_seed),
             _ => None,
         };
         if let Some(h) = hs {
